@@ -323,3 +323,17 @@ M('C13', 'c13-read-chunks', [(PARSE, "                line = input_file.readline
 M('C13', 'c13-mode-unhandled', [('main.py', "        elif args.mode == Mode.PIPE:\n            if args.stop_matcher != matcher.never:\n                output.warn('Ignoring stop matcher when stdin is used for messages')\n            piped_input_main(output, connection_list)\n", "")], 'C13.1')
 M('C13', 'c13-returncode-from-thread-alive', [(RUN, "        self.returncode = subprocess.run(", "        self.returncode = 0\n        self.result = subprocess.run(")], 'C13.4')
 V('C13', 'c13v-popen-keyword-order', [(RUN, "            stderr=self.stderr_fd,\n            env=env,\n", "            env=env,\n            stderr=self.stderr_fd,\n")])
+
+# ---- C14 -----------------------------------------------------------------------------------------
+M('C14', 'c14-generation-plus-one-label', [(OBJ, "number_to_letter_id(self.generation, False)", "number_to_letter_id(self.generation + 1, False)")], 'C14.2')
+M('C14', 'c14-matcher-generation-offset', [(MAT, "    return EqMatcher(letter_id_to_number(text), text)", "    return EqMatcher(letter_id_to_number(text) + 1, text)")], 'C14.2')
+M('C14', 'c14-radix-25-encoder', [(LIG, "        result = chr(value % 26 + base) + result\n        value //= 26", "        result = chr(value % 25 + base) + result\n        value //= 25")], 'C14')
+M('C14', 'c14-radix-decoder', [(LIG, "        result = (result + 1) * 26", "        result = (result + 1) * 27")], 'C14.2')
+M('C14', 'c14-is-letter-lower-only', [(MAT, "        (val >= ord('a') and val <= ord('z')) or\n        (val >= ord('A') and val <= ord('Z'))", "        (val >= ord('b') and val <= ord('z')) or\n        (val >= ord('A') and val <= ord('Z'))")], 'C14.1')
+M('C14', 'c14-is-letter-includes-digits', [(MAT, "        (val >= ord('a') and val <= ord('z')) or", "        (val >= ord('0') and val <= ord('z')) or")], 'C14.1')
+M('C14', 'c14-conn-matcher-app-id', [(MAT, "        name = conn.name() if conn is not None else 'unknown'", "        name = (conn.app_id() or conn.name()) if conn is not None else 'unknown'")], 'C14.3')
+M('C14', 'c14-pair-swapped', [(MAT, "        return self.a.matches(pair[0]) and self.b.matches(pair[1])", "        return self.a.matches(pair[1]) and self.b.matches(pair[0])")], 'C14.2')
+M('C14', 'c14-id-matcher-gen-none-minus', [(MAT, "        generation = obj.generation if obj.generation is not None else 0\n        return self.wrapped.matches((obj.id, generation))", "        generation = obj.generation if obj.generation is not None else 0\n        return self.wrapped.matches((obj.id, generation + 1))")], 'C14.2')
+M('C14', 'c14-split-cut-mismatch', [(MAT, "            _parse_int_matcher(text[:i]),\n            '',\n            _parse_generation_matcher(text[i:]),", "            _parse_int_matcher(text[:i]),\n            '',\n            _parse_generation_matcher(text[i + 1:]),")], 'C14.1')
+M('C14', 'c14-caps-base-wrong', [(LIG, "    base = ord('A') if caps else ord('a')", "    base = ord('@') if caps else ord('a')")], 'C14.1')
+V('C14', 'c14v-is-letter-isalpha-range', [(MAT, "        (val >= ord('a') and val <= ord('z')) or\n        (val >= ord('A') and val <= ord('Z'))", "        (ord('a') <= val <= ord('z')) or\n        (ord('A') <= val <= ord('Z'))")])
